@@ -557,6 +557,87 @@ func (g *gen) compound(d int) *Expr {
 	return c
 }
 
+// emptyPart: an expression that evaluates to NO value (a component of a
+// compound expression that makes the whole product empty).  Sometimes preceded
+// by the declaration of an empty list to explode.
+func (g *gen) emptyPart(first bool, decls *[]*Pipeline) *Expr {
+	switch g.choose(3, 3, 1, 1) {
+	case 0:
+		if decls != nil {
+			g.feat("compound-empty-explode")
+			name := "xs" + strconv.Itoa(g.r.Intn(3))
+			*decls = append(*decls, pipe(&Form{K: "asg", Sub: "var", LVs: []*LVal{{Name: name}}, Args: []*Expr{list()}}))
+			g.declare(name, listOf(tyStr), true)
+			return &Expr{K: "expl", S: name}
+		}
+		fallthrough
+	case 1:
+		g.feat("compound-empty-capture")
+		return captF(cmd("nop"))
+	case 2:
+		// indexing with no index value: no result
+		g.feat("compound-empty-index")
+		e := &Expr{K: "idx", E: list(lits("k", "w")...), Es: []*Expr{captF(cmd("nop"))}}
+		if first {
+			return e
+		}
+		return &Expr{K: "br", Es: []*Expr{e}}
+	default:
+		g.feat("compound-empty-all")
+		return captF(cmd("all", list()))
+	}
+}
+
+// compoundEmptyStmt: a compound expression in which a component that expands to
+// no value is followed by components with an effect — an assignment or an
+// output inside an output capture, a failing command.  Every component is
+// evaluated, also when the product is empty already (language.md "Order of
+// evaluation": the constituents "are evaluated first", "expression compounding
+// then happens"); the effect is observed by the `put $n` that follows.
+func (g *gen) compoundEmptyStmt(d int) []*Pipeline {
+	if g.pure {
+		return one(g.putStmt(d))
+	}
+	g.feat("compound-empty-then-effect")
+	var out []*Pipeline
+	n := "n" + strconv.Itoa(g.r.Intn(3))
+	out = append(out, pipe(&Form{K: "asg", Sub: "var", LVs: []*LVal{{Name: n}}, Args: lits("0")}))
+	g.declare(n, tyStr, false)
+	c := &Expr{K: "cmp"}
+	if g.chance(1, 2) {
+		c.Es = append(c.Es, lit(common.Pick(g.r, []string{"pre", "k", "1"})))
+	}
+	c.Es = append(c.Es, g.emptyPart(len(c.Es) == 0, &out))
+	if g.chance(1, 3) {
+		c.Es = append(c.Es, lit(common.Pick(g.r, []string{"w", ":", "2"})))
+	}
+	setN := &Form{K: "asg", Sub: "set", LVs: []*LVal{{Name: n}}, Args: lits(common.Pick(g.r, []string{"1", "set"}))}
+	for k := 1 + g.choose(3, 1); k > 0; k-- {
+		switch g.choose(3, 3, 2, 1, 1) {
+		case 0: // an assignment, no value
+			g.feat("compound-later-assign")
+			c.Es = append(c.Es, captF(setN))
+		case 1: // an assignment and a value
+			g.feat("compound-later-assign")
+			c.Es = append(c.Es, captF(setN, cmd("put", lit("w"))))
+		case 2:
+			g.feat("compound-later-fail")
+			c.Es = append(c.Es, captF(cmd("fail", lit(common.Pick(g.r, []string{"boom", "later"})))))
+		case 3: // an exception capture with an effect; `$ok` is never concatenated: the product is empty
+			g.feat("compound-later-exception-capture")
+			c.Es = append(c.Es, &Expr{K: "exc", C: chunkF(setN)})
+		default: // a value output to the enclosing port by a nested command
+			g.feat("compound-later-call")
+			c.Es = append(c.Es, captF(setN, cmd("nop", g.expr(g.randDataTy(1), d-1))))
+		}
+	}
+	if g.chance(1, 3) {
+		c.Es = append(c.Es, lit("z"))
+	}
+	out = append(out, pipe(cmd("put", c)), pipe(cmd("put", vr(n))))
+	return out
+}
+
 // multi generates an expression that evaluates to any number of values of type t.
 func (g *gen) multi(t *ty, d int) *Expr {
 	g.budget--
@@ -617,6 +698,20 @@ func (g *gen) multi(t *ty, d int) *Expr {
 			}
 			if t.k == tNumStr {
 				return g.expr(t, d)
+			}
+			if g.chance(1, 5) && !g.pure {
+				// an empty component somewhere, an effectful / failing one at the end: all are evaluated
+				g.feat("outer-product-empty-component")
+				i := g.r.Intn(len(c.Es))
+				es := append([]*Expr{}, c.Es[:i]...)
+				es = append(es, g.emptyPart(i == 0, nil))
+				es = append(es, c.Es[i:]...)
+				if st := g.effectStmt(d - 1); st != nil && g.chance(1, 2) {
+					es = append(es, capt(&Chunk{Pipes: []*Pipeline{st}}))
+				} else {
+					es = append(es, captF(cmd("fail", lit("cmpd"))))
+				}
+				c.Es = es
 			}
 			return c
 		}
@@ -770,7 +865,7 @@ func (g *gen) stmt(d int) []*Pipeline {
 	if g.inFn {
 		ret, flow = 3, 3
 	}
-	switch g.choose(10, 7, 6, 3, 4, 4, 4, 3, 3, 1, flow, ret, 3, 3, 1, 2, 1, 1) {
+	switch g.choose(10, 7, 6, 3, 4, 4, 4, 3, 3, 1, flow, ret, 3, 3, 1, 2, 1, 1, 1) {
 	case 0:
 		return one(g.putStmt(d))
 	case 1:
@@ -814,6 +909,8 @@ func (g *gen) stmt(d int) []*Pipeline {
 		return g.closureListStmt(d)
 	case 16:
 		return one(g.badStmt(d))
+	case 18:
+		return g.compoundEmptyStmt(d)
 	default:
 		g.feat("exception-capture")
 		return one(pipe(cmd("put", g.expr(tyExc, d-1))))
@@ -1015,7 +1112,26 @@ func (g *gen) delStmt(d int) *Pipeline {
 		if len(ms) > 0 {
 			g.feat("del-element")
 			m := common.Pick(g.r, ms)
-			return pipe(&Form{K: "del", LVs: []*LVal{{Name: m.name, Idx: []*Expr{lit(common.Pick(g.r, keyAlphabet))}}}})
+			lv := &LVal{Name: m.name, Idx: []*Expr{lit(common.Pick(g.r, keyAlphabet))}}
+			if m.t.elem.k == tMap && g.chance(2, 3) {
+				// an element of an element: `del m[k][w]` (a missing outer key throws)
+				g.feat("del-nested-element")
+				lv.Idx = append(lv.Idx, lit(common.Pick(g.r, keyAlphabet)))
+			}
+			lvs := []*LVal{lv}
+			if g.chance(1, 4) {
+				// several lvalues, left to right: `del m[k] m[w]`
+				g.feat("del-several")
+				m2 := common.Pick(g.r, ms)
+				lvs = append(lvs, &LVal{Name: m2.name, Idx: []*Expr{lit(common.Pick(g.r, keyAlphabet))}})
+			}
+			return pipe(&Form{K: "del", LVs: lvs})
+		}
+		if ls := g.assignable(func(v *gvar) bool { return v.t.k == tList || v.t.k == tStr }); len(ls) > 0 && g.chance(1, 4) {
+			// only maps support element removal
+			g.feat("del-element-of-non-map")
+			l := common.Pick(g.r, ls)
+			return pipe(&Form{K: "del", LVs: []*LVal{{Name: l.name, Idx: lits("0")}}})
 		}
 	}
 	var local []*gvar
@@ -1030,7 +1146,23 @@ func (g *gen) delStmt(d int) *Pipeline {
 	g.feat("del-variable")
 	v := common.Pick(g.r, local)
 	g.undeclare(v.name)
-	return pipe(&Form{K: "del", LVs: []*LVal{{Name: v.name}}})
+	lvs := []*LVal{{Name: v.name}}
+	if len(local) > 1 && g.chance(1, 3) {
+		// `del a b`
+		var rest []*gvar
+		for _, w := range local {
+			if w.name != v.name {
+				rest = append(rest, w)
+			}
+		}
+		if len(rest) > 0 {
+			g.feat("del-several")
+			w := common.Pick(g.r, rest)
+			g.undeclare(w.name)
+			lvs = append(lvs, &LVal{Name: w.name})
+		}
+	}
+	return pipe(&Form{K: "del", LVs: lvs})
 }
 
 func (g *gen) condExpr(d int) *Expr {
